@@ -115,3 +115,41 @@ func VerifC09Stable() {
 	verifAssert(found, "C09.stable: epoch that stayed loaded is missing from the listing")
 	verifReach("end")
 }
+
+// ---- C09.smt: lock traces + SMT interleaving check ------------------------------------------
+
+func verifC09AllOps() []func(m *MultiEpoch) {
+	return append(append([]func(m *MultiEpoch){}, verifC09Readers...), verifC09Writers...)
+}
+
+func verifC09Setup() *MultiEpoch {
+	m := NewMultiEpoch(&Options{})
+	m.epochs[5] = verifC09Epoch(5, "five.yml")
+	m.epochs[7] = verifC09Epoch(7, "seven.yml")
+	return m
+}
+
+// VerifC09Op runs ONE operation alone; the engine records its lock-operation trace.
+func VerifC09Op() {
+	ops := verifC09AllOps()
+	m := verifC09Setup()
+	ops[verifChoice("op", len(ops))](m)
+	verifReach("end")
+}
+
+// VerifC09Pair replays a combination of operations (params op0, op1[, op2]) concurrently under
+// the engine's scheduler on the real code.
+func VerifC09Pair() {
+	ops := verifC09AllOps()
+	m := verifC09Setup()
+	n := verifParam("threads", 2)
+	done := make(chan int, 4)
+	for i := 0; i < n; i++ {
+		k := verifParam([]string{"op0", "op1", "op2"}[i], 0)
+		go func() { ops[k](m); done <- 1 }()
+	}
+	for i := 0; i < n; i++ {
+		<-done
+	}
+	verifReach("end")
+}
